@@ -1,6 +1,7 @@
 import N0Verif.Proofs.CompareOpts
 import N0Verif.Proofs.CompareTransform
 import N0Verif.Proofs.CompareTransformKeyed
+import N0Verif.Proofs.CompareKeyVals
 import N0Verif.Proofs.XPathMatchGenEq
 /-!
 # C10 — exclude_xpaths, compare_only and transform only narrow or map what is compared
@@ -147,14 +148,71 @@ example : (compareTop trCexCfg trLeafA trLeafB).map (fun r => (r.diffs, r.otherU
     = .ok (1, [[.key ['a'], .idx 3]]) := by decide
 example : (compareTop { trCexCfg with tr := [] } trLeafA trLeafB).map (·.diffs) = .ok 5 := by decide
 
-/-- with a composite key the keyed statement fails even on lists of records: the key is built from the
-TRANSFORMED field, which must be a `str` — the identity function on the `int` key field `id` raises `TypeError`
-(`str + int`), the plain run on the (identical) mapped tree returns normally -/
-theorem C10_transform_keyed_ck_cex :
-    recOnly trkCkA = true ∧ LeafTransform trkCkCfg ∧ compareTop trkCkCfg trkCkA trkCkA = .error .TypeError ∧
+/-- the former counter-example `C10_transform_keyed_ck_cex` (finding C10-c(b)): a transform that returns a non-`str`
+for a key field (the identity function on the `int` key field `id`) used to raise `TypeError` (`str + int`); with
+fix C08-b the transformed field goes through the JSON text, the run returns like the plain run on the mapped tree -/
+theorem C10_transform_keyed_ck_fixed :
+    recOnly trkCkA = true ∧ LeafTransform trkCkCfg ∧ (compareTop trkCkCfg trkCkA trkCkA).map (·.diffs) = .ok 0 ∧
       mapT trkCkCfg [] trkCkA = trkCkA ∧
       (compareTop { trkCkCfg with tr := [] } (mapT trkCkCfg [] trkCkA) (mapT trkCkCfg [] trkCkA)).map (·.diffs) = .ok 0 :=
-  ⟨trk_ck_cex.1, trkCkCfg_leaf, trk_ck_cex.2.1, trk_ck_cex.2.2.1, trk_ck_cex.2.2.2⟩
+  ⟨trk_ck_fixed.1, trkCkCfg_leaf, trk_ck_fixed.2.1, trk_ck_fixed.2.2.1, trk_ck_fixed.2.2.2⟩
+
+/-- **C10 (transform with a composite key: the keys agree).**  For EVERY composite key, `LeafTransform cfg`, every
+pattern (patterns naming an index included), every list whose items are leaves or records with leaf key fields: item
+by item, the key the run with `transform` builds (the JSON text of the TRANSFORMED key fields, each looked up with the
+path `prefix[i]/field` the leaf comparison uses — fixes C08-b, C10-c) is the key the same item has in the mapped list
+in the run without `transform`.  So both runs pair the same positions, and a pattern that matches no dictionary entry
+of the tree changes no key. -/
+theorem C10_transform_keyed_ck_keys (cfg : Cfg) (hl : LeafTransform cfg) (p : Path) (xs : List Val) (i : Nat)
+    (h : ∀ x ∈ xs, keyFieldsLeaf cfg x) :
+    keysOf cfg p i xs = keysOf (noTransf cfg) p i (mapTL cfg p (transformAt cfg p) i xs) :=
+  ckv_keysOf_mapped cfg hl p xs i h
+
+/-- the transform lookup does not tell `[i]`, `[j]` and `[i]<>[j]` apart (no pattern names an index of a keyed list) -/
+def IdxBlind (cfg : Cfg) : Prop :=
+  ∀ (p : Path) (i j : Nat) (q : Path),
+    transformAt cfg (p ++ .idx2 i j :: q) = transformAt cfg (p ++ .idx i :: q) ∧
+    transformAt cfg (p ++ .idx2 i j :: q) = transformAt cfg (p ++ .idx j :: q)
+
+/-- the statement of `C10_transform_keyed` WITH a composite key — stated, not proved (the proved part is
+`C10_transform_keyed_ck_keys`: same keys, hence same pairing).  What is missing is the walk induction for a pair met
+across positions: the run with `transform` compares the leaves of the pair at `prefix[i]<>[j]/field` while the mapped
+trees were built with `prefix[i]/field` (left) and `prefix[j]/field` (right), which needs `IdxBlind` and a
+three-path generalisation of the induction of `Proofs/CompareTransformKeyed.lean`.  Checked on the implementation by
+evaluator `transform/ck` (patterns `rows/<field>`, `rows[i]/<field>`, `//<field>`, `*/<field>`). -/
+def C10_transform_keyed_ck_stmt : Prop :=
+  ∀ (cfg : Cfg) (a b : Val), cfg.direct = false → LeafTransform cfg → IdxBlind cfg →
+    recOnly a = true → recOnly b = true →
+    (∀ x ∈ allItems a ++ allItems b, keyFieldsLeaf cfg x) →
+    TrERel (compareTop cfg a b) (compareTop (noTransf cfg) (mapT cfg [] a) (mapT cfg [] b))
+
+/-- the inputs of finding C10-c: `{'rows': [{'id': '1', 'v': 1}, {'id': '2', 'v': 2}]}` against the same with `rows`
+reversed, `composite_key='id'`: (a) the pattern `rows/id` (no index: matches no dictionary entry) with the constant
+function no longer changes the pairing — nothing reported, as without the option (before: every key `id=K`, four
+differences); (b) the pattern `rows[0]/id` with `lower` on `id: 'A'` vs `id: 'a'`: the key is built from the
+transformed field, the records meet and nothing is reported (before: two unique records) -/
+def ckRows (x y : Val) : Val := .dict .n0 [(['r'], .list .n0 [x, y])]
+def ckRec (i : Char) (v : Int) : Val := .dict .n0 [(['i', 'd'], .str [i]), (['v'], .int v)]
+def constFn : Val → Val
+  | .list c xs => .list c xs
+  | .dict c kvs => .dict c kvs
+  | _ => .str ['K']
+def ckCfgA : Cfg := { Cfg.default Flags.init false with ck := .one ['i', 'd'], tr := [⟨['r', '/', 'i', 'd'], constFn⟩] }
+def ckCfgB : Cfg := { Cfg.default Flags.init false with ck := .one ['i', 'd'], tr := [⟨['r', '[', '0', ']', '/', 'i', 'd'], lowerFn⟩] }
+theorem C10_ck_pairing_fixed :
+    (compareTop ckCfgA (ckRows (ckRec '1' 1) (ckRec '2' 2)) (ckRows (ckRec '2' 2) (ckRec '1' 1))).map (·.diffs) = .ok 0 ∧
+    (compareTop { ckCfgA with tr := [] } (ckRows (ckRec '1' 1) (ckRec '2' 2)) (ckRows (ckRec '2' 2) (ckRec '1' 1))).map (·.diffs) = .ok 0 ∧
+    (compareTop ckCfgB (.dict .n0 [(['r'], .list .n0 [ckRec 'A' 1])]) (.dict .n0 [(['r'], .list .n0 [ckRec 'a' 1])])).map (·.diffs) = .ok 0 ∧
+    (compareTop { ckCfgB with tr := [] } (.dict .n0 [(['r'], .list .n0 [ckRec 'A' 1])]) (.dict .n0 [(['r'], .list .n0 [ckRec 'a' 1])])).map (·.diffs) = .ok 2 := by
+  decide
+/-- non-vacuity of `C10_transform_keyed_ck_keys`: the records above have leaf key fields; the keys of the transformed run -/
+example : ∀ x ∈ [ckRec 'A' 1, ckRec 'b' 2], keyFieldsLeaf ckCfgB x := by
+  intro x hx
+  simp only [List.mem_cons, List.not_mem_nil, or_false] at hx
+  rcases hx with rfl | rfl <;>
+    simp [keyFieldsLeaf, ckRec, ckCfgB, Cfg.default, PatArg.pats, Val.lookup, isLeaf]
+example : keysOf ckCfgB [.key ['r']] 0 [ckRec 'A' 1, ckRec 'B' 2] =
+    .ok [['{', '"', 'i', 'd', '"', ':', ' ', '"', 'a', '"', '}'], ['{', '"', 'i', 'd', '"', ':', ' ', '"', 'B', '"', '}']] := by decide
 
 /-- non-vacuity: lists of records whose names agree after `lower`, one changed value, one extra record -/
 example : LeafTransform trkCfg := trkCfg_leaf
